@@ -7,6 +7,7 @@
    holds a write or upgradable guard or has announced a write. *)
 From AL Require Import Base Api Mutex RwLock RwApi RwInv.
 From AL.Tie Require Tie_Mutex Tie_Raw Tie_RwLock Tie_RwFutures.
+From AL.Sched Require RwSched RwSchedConv.
 
 Theorem C11_single_converter_hist : forall ops : list rop,
   N.of_nat (length ops) < OPS_BOUND ->
@@ -36,6 +37,38 @@ Example C11_nonvacuous :
   nH x = 1 /\ nU x = 0 /\ nW x = 0 /\ nR x = 1 /\ o_res (snd (rstep x (RTry KRead false))) = RNone.
 Proof. vm_compute. repeat split. Qed.
 
+(* ---------- schedule half: every interleaving of the atomic operations on the state word ---------- *)
+(* On the machine of C02_excl_sched (Sched/RwSched.v: any number of threads, every schedule, each conversion ONE atomic
+   action that keeps the inner mutex — upgrade() = fetch_sub(ONE_READER - WRITER_BIT), try_upgrade =
+   compare_exchange(ONE_READER, WRITER_BIT), the downgrades = fetch_add(ONE_READER - WRITER_BIT); pinned by Tie_Raw):
+   in every reachable state at most one thread is an upgradable reader, a pending upgrader, an announced writer or a
+   writer, and that thread holds the inner mutex ... *)
+Theorem C11_single_converter_sched : forall (n : nat) (sched : list (nat * RwSched.raction)),
+  let g := RwSched.rrun_s n sched in
+  RwSched.cnt RwSched.fU (RwSched.rg_thr g) + RwSched.cnt RwSched.fA (RwSched.rg_thr g) <= 1 /\ forall i ti, nth_error (RwSched.rg_thr g) i = Some ti -> RwSchedConv.has_role ti = true ->
+    RwSched.rt_m ti = true /\ RwSched.rg_m g = true.
+Proof. exact RwSchedConv.rw_sched_single_converter. Qed.
+
+(* ... and while it is, the attempts of every OTHER thread to take the inner mutex, to become an upgradable reader
+   (with any expected value), to announce itself as a writer, to try_write, or to convert, change nothing: there is no
+   instant — before, between or after the conversion steps — at which another writer or upgradable reader gets in *)
+Theorem C11_converter_excludes_sched : forall (n : nat) (sched : list (nat * RwSched.raction)) (i : nat) (ti : RwSched.rtst) (j : nat),
+  let g := RwSched.rrun_s n sched in
+  nth_error (RwSched.rg_thr g) i = Some ti -> RwSchedConv.has_role ti = true -> j <> i ->
+  RwSched.rstep g j RwSched.RMutexLock = g /\ (forall c, RwSched.rstep g j (RwSched.RUpCas c) = g) /\ RwSched.rstep g j RwSched.RAnnounce = g /\ RwSched.rstep g j RwSched.RTryWriteCas = g /\ RwSched.rstep g j RwSched.RUpgradeStart = g /\ RwSched.rstep g j RwSched.RTryUpgrade = g /\ RwSched.rstep g j RwSched.RDowngradeWrite = g /\ RwSched.rstep g j RwSched.RDowngradeToUp = g.
+Proof. exact RwSchedConv.rw_sched_converter_excludes. Qed.
+
+(* non-vacuity: thread 0 is an upgradable reader, starts an upgrade while thread 1 reads; thread 2 tries everything in
+   between and nothing changes; the reader leaves, the upgrade completes, is downgraded to upgradable again *)
+Example C11_sched_nonvacuous :
+  let pre := [(0, RwSched.RMutexLock); (0, RwSched.RUpCas 0); (1, RwSched.RReadCas 2); (0, RwSched.RUpgradeStart)]%nat in
+  let g := RwSched.rrun_s 3 pre in
+  RwSched.rg_w g = 3 /\ RwSched.cnt RwSched.fA (RwSched.rg_thr g) = 1 /\ RwSched.rstep g 2 RwSched.RMutexLock = g /\ RwSched.rstep g 2 RwSched.RTryWriteCas = g /\ RwSched.rstep g 2 (RwSched.RReadCas 2) = g /\ (let g2 := RwSched.rrun_s 3 (pre ++ [(1, RwSched.RReadUnlock); (0, RwSched.RObserve); (0, RwSched.RDowngradeToUp)]%nat) in
+  RwSched.rg_w g2 = 2 /\ RwSched.cnt RwSched.fU (RwSched.rg_thr g2) = 1 /\ RwSched.cnt RwSched.fW (RwSched.rg_thr g2) = 0 /\ RwSched.rg_m g2 = true).
+Proof. vm_compute. repeat split. Qed.
+
 Print Assumptions C11_single_converter_hist.
 Print Assumptions C11_value_frame.
 Print Assumptions C11_pending_upgrade_excludes.
+Print Assumptions C11_single_converter_sched.
+Print Assumptions C11_converter_excludes_sched.
